@@ -463,7 +463,7 @@ pub fn judge_session(
                                     "C07",
                                     "bestmove-legal",
                                     class,
-                                    format!("`go` at line {} on '{}' answered '{}', not a legal move there (commands: {:?})", g.line_no, pos.fen(), text, &lines[..=g.line_no]),
+                                    format!("`go` at line {} on '{}' answered '{}', not a legal move there (commands: {:?})", g.line_no, pos.fen(), text, short(&lines[..=g.line_no])),
                                 ));
                             }
                         }
@@ -586,7 +586,7 @@ pub fn judge_session(
                                                 "C03",
                                                 "line-legal",
                                                 &format!("{}:{}", if k == 0 { "first-move" } else { "later-move" }, class),
-                                                format!("UCI: `{}` after go at line {} on '{}': move {} is illegal (commands {:?})", line, g.line_no, pos.fen(), t, &lines[..=g.line_no]),
+                                                format!("UCI: `{}` after go at line {} on '{}': move {} is illegal (commands {:?})", line, g.line_no, pos.fen(), t, short(&lines[..=g.line_no])),
                                             ));
                                         }
                                         break;
@@ -626,14 +626,14 @@ pub fn judge_session(
                 owner,
                 "no-panic",
                 &format!("{}:{}", loc, if owner == "C14" { word.as_str() } else if any_terminal_go { "terminal-root" } else { "session" }),
-                format!("a thread of the UCI process panicked: {} at {}; commands so far: {:?}", msg, loc, lines),
+                format!("a thread of the UCI process panicked: {} at {}; commands so far: {:?}", msg, loc, short(&lines)),
             ));
         }
         Outcome::Deadlock { msg } => {
-            v.push(Violation::new(owner, "process-ends", "deadlock", format!("the process hangs: {}; commands: {:?}", msg, lines)));
+            v.push(Violation::new(owner, "process-ends", "deadlock", format!("the process hangs: {}; commands: {:?}", msg, short(&lines))));
         }
         Outcome::Abort { msg } if msg.contains("post-cancel") => {
-            v.push(Violation::new("C04", "stop-prompt", "uci", format!("a worker searched more than {} nodes after the cancellation signal; commands: {:?}", case.post_cancel_bound, lines)));
+            v.push(Violation::new("C04", "stop-prompt", "uci", format!("a worker searched more than {} nodes after the cancellation signal; commands: {:?}", case.post_cancel_bound, short(&lines))));
         }
         Outcome::Abort { msg } => {
             // a search that nobody has asked to end may legitimately still be running
@@ -644,15 +644,30 @@ pub fn judge_session(
             };
             let time_up = gos.last().map(|g| ((clock_at_idx[log.len()].saturating_sub(g.clock_at)) / 1_000_000) as i64 >= g.movetime_ms.max(0) + 1000).unwrap_or(false);
             if canceller_after || time_up {
-                v.push(Violation::new(owner, "process-ends", "node-cap", format!("the session did not end within the node cap ({}); commands: {:?}", msg, lines)));
+                v.push(Violation::new(owner, "process-ends", "node-cap", format!("the session did not end within the node cap ({}); commands: {:?}", msg, short(&lines))));
             } else {
                 stats.probe("harness:uncancelled-search-hit-node-cap");
             }
         }
         Outcome::StepCap => {
-            v.push(Violation::new(owner, "process-ends", "step-cap", format!("the session did not end within the step cap; commands: {:?}", lines)));
+            v.push(Violation::new(owner, "process-ends", "step-cap", format!("the session did not end within the step cap; commands: {:?}", short(&lines))));
         }
     }
+}
+
+/// Command lines for a violation's detail text, each cut to a readable length.
+fn short(lines: &[String]) -> Vec<String> {
+    lines
+        .iter()
+        .map(|l| {
+            if l.chars().count() > 200 {
+                let head: String = l.chars().take(160).collect();
+                format!("{}...[{} chars]", head, l.chars().count())
+            } else {
+                l.clone()
+            }
+        })
+        .collect()
 }
 
 fn classify(p: &Pos, m: Mv) -> &'static str {
